@@ -3,7 +3,18 @@
 package extendeddaemonsetreplicaset
 
 import (
+	"context"
+	"strconv"
+	"time"
+
+	"github.com/go-logr/logr"
 	corev1 "k8s.io/api/core/v1"
+	metav1 "k8s.io/apimachinery/pkg/apis/meta/v1"
+	"k8s.io/apimachinery/pkg/types"
+	"sigs.k8s.io/controller-runtime/pkg/reconcile"
+
+	edsctrl "github.com/DataDog/extendeddaemonset/controllers/extendeddaemonset"
+	"github.com/DataDog/extendeddaemonset/pkg/controller/utils/comparison"
 
 	datadoghqv1alpha1 "github.com/DataDog/extendeddaemonset/api/v1alpha1"
 	"github.com/DataDog/extendeddaemonset/zzverif/fakeapi"
@@ -151,4 +162,153 @@ func ZZ_C11_ersFaults() {
 	nondet.Reach("C11.ers.create-failed", failedPodOps > 0)
 	nondet.Reach("C11.ers.status-failed", failedStatus)
 	nondet.Reach("C11.ers.no-fault", failedPodOps == 0 && !failedStatus && len(c.Writes()) > 1)
+}
+
+// ZZ_C11_roundsAfterFaults: "Subsequent failure-free reconciliation then converges to the same
+// final pods and status as the run without the failure."  The bounded multi-round run of C02
+// (ExtendedDaemonSet controller + every replica-set controller + kubelet model, template just
+// changed from A to B, no canary strategy) in which every API write of the FIRST round (thorough:
+// of the first two rounds) fails, is
+// applied with the answer lost, or succeeds — independently — and every controller is replaced by
+// a fresh instance afterwards.  At every point no node holds two daemon pods, and the following
+// failure-free rounds reach exactly the failure-free final state (one Ready B pod per node,
+// status counting them, the replica set of B active) and stay there.
+func ZZ_C11_roundsAfterFaults() {
+	nNodes := 2
+	c := fakeapi.New()
+	ds := &datadoghqv1alpha1.ExtendedDaemonSet{ObjectMeta: metav1.ObjectMeta{Name: zzEDSName, Namespace: zzNS, UID: "uid-foo", Annotations: map[string]string{}}}
+	tpl := func(id string) corev1.PodTemplateSpec {
+		return corev1.PodTemplateSpec{ObjectMeta: metav1.ObjectMeta{Labels: map[string]string{"app": "agent"}},
+			Spec: corev1.PodSpec{Containers: []corev1.Container{{Name: "agent", Image: "agent:" + id}}}}
+	}
+	ds.Spec.Template = tpl("B")
+	datadoghqv1alpha1.DefaultExtendedDaemonSetSpec(&ds.Spec, datadoghqv1alpha1.ExtendedDaemonSetSpecStrategyCanaryValidationModeAuto)
+	hash := func(id string) string {
+		t := tpl(id)
+		h, _ := comparison.GenerateMD5PodTemplateSpec(&t)
+		return h
+	}
+	mkRS := func(id, name string) *datadoghqv1alpha1.ExtendedDaemonSetReplicaSet {
+		rs := zzRS(name, hash(id))
+		rs.Spec.Template = tpl(id)
+		rs.Annotations = map[string]string{datadoghqv1alpha1.MD5ExtendedDaemonSetAnnotationKey: hash(id)}
+		rs.CreationTimestamp = metav1.NewTime(nondet.Base().Add(-time.Hour))
+		return rs
+	}
+	c.ERS = append(c.ERS, mkRS("A", "foo-a"))
+	ds.Status.ActiveReplicaSet = "foo-a"
+	newExists := nondet.Bool("newReplicaSetExists")
+	if newExists {
+		c.ERS = append(c.ERS, mkRS("B", "foo-b"))
+	}
+	for i := 0; i < nNodes; i++ {
+		c.Nodes = append(c.Nodes, &corev1.Node{ObjectMeta: metav1.ObjectMeta{Name: zzNodeName(i), Labels: map[string]string{}}})
+		switch nondet.String("node"+strconv.Itoa(i)+".pod", "none", "old") {
+		case "old":
+			c.Pods = append(c.Pods, zzPod("old-"+zzNodeName(i), zzNodeName(i), "foo-a", hash("A"), 0, corev1.PodRunning, true, nondet.Base().Add(-time.Hour)))
+		}
+	}
+	c.EDS = append(c.EDS, ds)
+
+	// per-node count of daemon pods, followed along the call log ("at any intermediate point")
+	count := map[string]int{}
+	podNode := map[string]string{}
+	for _, p := range c.Pods {
+		count[fakeapi.PodNode(p)]++
+		podNode[p.Name] = fakeapi.PodNode(p)
+	}
+	seenLog := 0
+	follow := func() {
+		for _, e := range c.Log[seenLog:] {
+			if e.Kind != "Pod" || !e.Applied {
+				continue
+			}
+			switch e.Verb {
+			case "create":
+				count[e.Node]++
+				podNode[e.Name] = e.Node
+				nondet.Assert("C11.rounds.one-pod-per-node", count[e.Node] <= 1)
+			case "delete":
+				count[podNode[e.Name]]--
+			}
+		}
+		seenLog = len(c.Log)
+	}
+	round := func() (podWrites int) {
+		from := len(c.Log)
+		// fresh instances every round: the controllers keep no decision state of their own
+		edsRec, _ := edsctrl.NewReconciler(edsctrl.ReconcilerOptions{DefaultValidationMode: datadoghqv1alpha1.ExtendedDaemonSetSpecStrategyCanaryValidationModeAuto}, c, c.Scheme(), logr.Logger{}, &fakeapi.Recorder{})
+		_, _ = edsRec.Reconcile(context.TODO(), reconcile.Request{NamespacedName: types.NamespacedName{Namespace: zzNS, Name: zzEDSName}})
+		names := []string{}
+		for _, rs := range c.ERS {
+			names = append(names, rs.Name)
+		}
+		for _, name := range names {
+			_, _ = zzReconcile(zzReconciler(c, false), zzNS, name)
+		}
+		for _, e := range c.Log[from:] {
+			if e.Kind == "Pod" && (e.Verb == "create" || e.Verb == "delete") {
+				podWrites++
+			}
+		}
+		follow()
+		zzKubelet(c)
+		return podWrites
+	}
+	converged := func() bool {
+		if len(c.Pods) != nNodes {
+			return false
+		}
+		seen := map[string]bool{}
+		for _, p := range c.Pods {
+			if p.Annotations[datadoghqv1alpha1.MD5ExtendedDaemonSetAnnotationKey] != hash("B") || seen[p.Spec.NodeName] {
+				return false
+			}
+			seen[p.Spec.NodeName] = true
+		}
+		return true
+	}
+	// the first round (thorough: the first two rounds) under faults
+	faultRounds := 1
+	if nondet.Thorough() {
+		faultRounds = 2
+	}
+	c.InjectFaults = true
+	for r := 0; r < faultRounds; r++ {
+		round()
+	}
+	c.InjectFaults = false
+	faults := 0
+	for _, e := range c.Log {
+		if e.Failed {
+			faults++
+		}
+	}
+	bound := 2*nNodes + 6 + faultRounds
+	rounds := faultRounds
+	for rounds < bound && !converged() {
+		round()
+		rounds++
+	}
+	nondet.Assert("C11.rounds.converges", converged())
+	w := round()
+	nondet.Assert("C11.rounds.quiescent", w == 0 && converged())
+	w2 := round()
+	nondet.Assert("C11.rounds.still-quiescent", w2 == 0 && converged())
+	final := c.EDS[0]
+	// exactly one replica set of template B exists and it is the active one
+	nB, nameB := 0, ""
+	for _, rs := range c.ERS {
+		if rs.Spec.TemplateGeneration == hash("B") {
+			nB++
+			nameB = rs.Name
+		}
+	}
+	nondet.Assert("C11.rounds.one-replicaset-per-template", nB == 1)
+	nondet.Assert("C11.rounds.same-final-status", final.Status.ActiveReplicaSet == nameB && int(final.Status.Desired) == nNodes &&
+		int(final.Status.Ready) == nNodes && int(final.Status.UpToDate) == nNodes && int(final.Status.Current) == nNodes && int(final.Status.Available) == nNodes)
+	nondet.Observe("rounds", rounds)
+	nondet.Observe("active", final.Status.ActiveReplicaSet)
+	nondet.Reach("C11.rounds.several-faults", faults >= 2)
+	nondet.Reach("C11.rounds.no-fault", faults == 0)
 }
